@@ -124,6 +124,9 @@ def _ops(max_len):
         # a value that spells one member twice: nested under its key and as a dotted key next to it
         st.tuples(st.just("substitute-dotted"), ref, st.integers(0, 7)).map(list),
         st.tuples(st.just("substitute-dotted"), ref, st.integers(0, 7)).map(list),
+        # a value that carries schema notation (`...: ...`, `key: ...`, `[..., x]`) and is looked at again afterwards
+        st.tuples(st.just("substitute-marker"), ref, st.integers(0, 7)).map(list),
+        st.tuples(st.just("substitute-marker"), ref, st.integers(0, 7)).map(list),
         # make_required with a caller-owned collection of keys (set / list / tuple), which must come back untouched
         st.tuples(st.just("make-required-keys"), ref, st.integers(0, 15), st.sampled_from(["set", "list", "tuple", "set"])).map(list),
         st.tuples(st.just("make-required-keys"), ref, st.integers(0, 15), st.sampled_from(["set", "list", "tuple", "set"])).map(list),
@@ -458,6 +461,21 @@ def check(case, ctx):
 
                     def thunk(s=s, val=val):
                         return substitute(s, val)
+            elif name == "substitute-marker":
+                s = w.schema(op[1])
+                if s is not None:
+                    shapes = [{"a": 1, ...: ...}, {...: ...}, {"a": {"b": 2, ...: ...}}, [{"x": 1, ...: ...}], {"a": [1, ...]},
+                              [..., 1], {"b": ..., ...: ...}, {"a": {...: ...}, "c": None}]
+                    val = copy.deepcopy(shapes[op[2] % len(shapes)])
+                    before_val = copy.deepcopy(val)
+
+                    def thunk(s=s, val=val, before_val=before_val):
+                        try:
+                            return substitute(s, val)
+                        finally:
+                            if _deep(val) != _deep(before_val):
+                                raise Violation("argument-mutated", f"substitute({s!r}, value) changed the caller's value from "
+                                                                    f"{before_val!r} to {val!r}")
             elif name == "substitute-dotted":
                 s = w.schema(op[1])
                 keys = [k for k in _declared_keys(s) if isinstance(k, str)]
@@ -575,7 +593,11 @@ def check(case, ctx):
                         else:
                             ctx.label("pristine-error")
                 if isinstance(out, Schema):
-                    w.add(out)
+                    from .c12 import _illegal_ellipsis
+                    if name in ("substitute-marker", "substitute-placeholders") and _illegal_ellipsis(out):
+                        ctx.label("result-not-pooled(C12 finding: `...` copied into the schema)")
+                    else:
+                        w.add(out)
                 ctx.label("op:" + name + (":raised" if fp[0] == "raised" else ""))
 
             # ---- invariants after every step -------------------------------------------------------
@@ -674,7 +696,7 @@ def _volatile(s):
             if lf and any(isinstance(n, int) and n > 64 for n in lf[1:]):
                 return True
         return False
-    except ValueError:
+    except (ValueError, AttributeError):
         return True
 
 
